@@ -335,7 +335,7 @@ def gen_solver_cfg(rng, solvers=('nm', 'powell', 'de', 'de2'), dims=(1, 5)):
         cfg['npop'] = rng.choice([4, 5, 8, max(4, 2 * dim + 1)])
         cfg['strategy'] = rng.choice(['Best1Bin', 'Best1Exp', 'Rand1Bin', 'Rand1Exp', 'RandToBest1Bin', 'RandToBest1Exp',
                                       'Best2Bin', 'Best2Exp', 'Rand2Bin', 'Rand2Exp'])
-        cfg['CR'] = rng.choice([0.1, 0.5, 0.9, 1.0]); cfg['F'] = rng.choice([0.4, 0.8, 1.2])
+        cfg['CR'] = rng.choice([0.1, 0.5, 0.9, 1.0, 0.0]); cfg['F'] = rng.choice([0.4, 0.8, 1.2])       # (CR = 0: a setting that is falsy and still a setting)
         if cfg['strategy'].startswith(('Best2', 'Rand2')): cfg['npop'] = max(cfg['npop'], 6)   # needs 5 distinct others
         cfg['init'] = rng.choice(['random', 'random', 'x0'])
         cfg['init_lo'] = [v - 2.0 for v in cfg['x0']]; cfg['init_hi'] = [v + 2.0 for v in cfg['x0']]
@@ -343,6 +343,7 @@ def gen_solver_cfg(rng, solvers=('nm', 'powell', 'de', 'de2'), dims=(1, 5)):
         cfg['radius'] = rng.choice([0.05, 0.05, 0.2]); cfg['adaptive'] = rng.random() < 0.3
     else:
         cfg['xtol'] = rng.choice([1e-4, 1e-2])
+        if rng.random() < 0.08: cfg['xtol'] = 0.0; cfg['imax'] = rng.choice([8, 25])      # exact line searches, bounded by imax: falsy and still a setting
     return cfg
 
 
